@@ -9,4 +9,7 @@ python3 tools/consts.py /repo > coq/Generated/Consts.v.new && { cmp -s coq/Gener
 cp /repo/Cargo.lock harness/Cargo.lock
 sha256sum /repo/Cargo.lock | cut -d' ' -f1 | tr -d '\n' > .cache/lock.stamp
 (cd harness && RUSTFLAGS="--cfg samply_verif" CARGO_TARGET_DIR=../.cache/target-hooks timeout 3000 cargo build --offline --workspace)
+
+(cd /repo && RUSTFLAGS="--cfg samply_verif" CARGO_TARGET_DIR=/verif/.cache/target-samply timeout 3000 cargo build --offline -p samply)
+echo samply built
 echo setup done
